@@ -163,7 +163,19 @@ func (c *Calcium) doReplaceWorkload(
 					removeMessage.Success = true
 					return
 				},
-				nil,
+				// rollback: the old workload could not be removed, so the new one, which
+				// took over the old one's resources, must not stay
+				func(ctx context.Context, failedByCond bool) error {
+					if failedByCond || createMessage.WorkloadID == "" {
+						return nil
+					}
+					return c.doRemoveWorkload(ctx, &types.Workload{
+						ID:       createMessage.WorkloadID,
+						Name:     createMessage.WorkloadName,
+						Nodename: node.Name,
+						Engine:   node.Engine,
+					}, true)
+				},
 				c.config.GlobalTimeout,
 			)
 		},
